@@ -7,7 +7,8 @@
 //! sequence of thread ids chosen, and can be replayed, enumerated (DFS with a preemption bound)
 //! or randomised (seeded).
 
-use iceoryx2_pal_concurrency_sync::verif_hook::{self, Site, ord_name};
+pub use iceoryx2_pal_concurrency_sync::verif_hook::Site;
+use iceoryx2_pal_concurrency_sync::verif_hook::{self, ord_name};
 use serde_json::{Value, json};
 use std::cell::RefCell;
 use std::panic::{AssertUnwindSafe, catch_unwind};
@@ -100,7 +101,11 @@ struct Inner {
     ranges: Vec<(usize, usize)>,
     record_atoms: bool,
     yield_after: bool,
+    site_filter: Option<SiteFilter>,
 }
+
+/// decides for an atomic access whether it is a yield point (instead of the address ranges)
+pub type SiteFilter = Arc<dyn Fn(&Site) -> bool + Send + Sync>;
 
 thread_local! {
     static CTX: RefCell<Option<(usize, Arc<Inner>)>> = const { RefCell::new(None) };
@@ -126,6 +131,24 @@ impl Inner {
     }
 
     fn site_info(&self, s: &Site) -> Option<SiteInfo> {
+        if let Some(f) = &self.site_filter {
+            if !f(s) {
+                return None;
+            }
+            return Some(SiteInfo {
+                addr: s.addr,
+                range: 0,
+                off: s.addr,
+                width: s.width,
+                kind: s.kind.name(),
+                ord: ord_name(s.ord),
+                ordf: ord_name(s.ordf),
+                operand: s.operand,
+                expected: s.expected,
+                file: s.file,
+                line: s.line,
+            });
+        }
         let (range, off) = if s.kind == verif_hook::Kind::Fence {
             (usize::MAX, 0)
         } else {
@@ -270,6 +293,8 @@ pub struct RunConfig {
     pub record_atoms: bool,
     /// additionally yield after every successful write access
     pub yield_after: bool,
+    /// if set, replaces the address ranges
+    pub site_filter: Option<SiteFilter>,
 }
 
 impl Default for RunConfig {
@@ -279,6 +304,7 @@ impl Default for RunConfig {
             max_steps: 10_000,
             record_atoms: true,
             yield_after: false,
+            site_filter: None,
         }
     }
 }
@@ -301,6 +327,7 @@ pub fn run(cfg: RunConfig, bodies: Vec<Body>, strat: &mut dyn Strategy) -> RunRe
         ranges: cfg.ranges.clone(),
         record_atoms: cfg.record_atoms,
         yield_after: cfg.yield_after,
+        site_filter: cfg.site_filter.clone(),
     });
 
     let mut handles = vec![];
